@@ -153,6 +153,11 @@ func (c *fmtCtx) plain(t types.Type, v value) interface{} {
 			return i.showString(x)
 		}
 		return c.sentinel(x)
+	case *ropestr, *decTerm:
+		if c.evalModel {
+			return i.showString(x)
+		}
+		return c.sentinel(x)
 	case []value:
 		// []byte prints specially; others as list
 		if t != nil {
@@ -362,6 +367,18 @@ func (c *fmtCtx) argsFor(f string, vs []value) (string, []interface{}) {
 			continue
 		}
 		verb := f[k]
+		if vi < len(vs) && (verb == 'd' || verb == 'v') && k == start+1 && !c.evalModel {
+			if itf, isI := vs[vi].(iface); isI {
+				if sv, isSym := itf.v.(sym); isSym && sv.k != types.Bool {
+					if bt, ok := itf.t.(*types.Basic); ok && bt.Info()&types.IsInteger != 0 {
+						out[vi] = c.sentinel(&decTerm{k: sv.k, t: sv.t})
+						nf.WriteString("%s")
+						vi++
+						continue
+					}
+				}
+			}
+		}
 		if vi < len(vs) && verb == 'c' {
 			if itf, isI := vs[vi].(iface); isI {
 				if sv, isSym := itf.v.(sym); isSym {
